@@ -98,7 +98,7 @@ def gen_pattern(rng, wf=True):
     """a version pattern of the documented grammar. wf=True: uniquely readable (boundary conditions
     respected, each field at most once, lower-case literal text, brackets only as groups or escaped)."""
     for _ in range(100):
-        prefix = rng.choice(["", "", "v", "v", "ver-", "r", "release_", "\\[x\\]", "(", "{", "$", "*"]) if rng.random() < 0.6 else ""
+        prefix = rng.choice(["", "", "v", "v", "ver-", "r", "release_", "\\[x\\]", "(", "{", "*"]) if rng.random() < 0.6 else ""
         cal = cal_combo(rng)
         num = num_combo(rng)
         parts = cal + num
